@@ -53,7 +53,10 @@ TStep ==
          /\ ObsOK(e, trees'[IF e.op = "clone" THEN e.t2 ELSE e.t])
          \* trees not touched by this call (an original and its clones are independent)
          /\ \A i \in DOMAIN e.others :
-              e.others[i][1] \in DOMAIN trees' /\ e.others[i][3] = SLen(trees'[e.others[i][1]].s)
+              LET x == e.others[i] IN
+              /\ x[1] \in DOMAIN trees' /\ x[3] = SLen(trees'[x[1]].s)
+              /\ <<x[4], x[5]>> = MinKey(trees'[x[1]].s, trees'[x[1]].rev)
+              /\ <<x[6], x[7]>> = MaxKey(trees'[x[1]].s, trees'[x[1]].rev)
 
 TSkip ==
   /\ l <= N
